@@ -115,4 +115,10 @@ let () =
           (match errclear_compile with ErrClearPush -> "clearpush" | ErrResize1 -> "resize1" | ErrNone -> "none")
           (match errclear_parse with ErrClearPush -> "clearpush" | ErrResize1 -> "resize1" | ErrNone -> "none")
           (List.length dotransform_try_stmts) (List.length max_dirt)
+    | "CLASSES" :: _ ->
+        List.iter (fun m ->
+          let c = match classify m with
+            | Some PerTransformation -> "per-transformation" | Some Sticky -> "sticky" | Some Constant -> "constant"
+            | Some StackObject -> "stack-object" | Some Scratch -> "scratch" | None -> "UNCLASSIFIED" in
+          Printf.printf "CLASS %s %s\n" (mid_name m) c) member_ids
     | _ -> ())
